@@ -29,7 +29,7 @@ func declareAPI(r *Report, ids []string, mins map[string]int) aspectSet {
 
 func init() {
 	checks["C01"] = func(r *Report, p *Program, tier string) {
-		r.Explanation = "Decides, for all 32 request-issuing operations and all argument values at once, the structural facts the request bytes are a function of: the protocol layout of every request struct (L1-L5, L7 vs spec/wire.json), the function-code tables (L6), the wiring argument->offset incl. magic words, nil/partial maps and conditional clamps (A2-A4 vs spec/ops.json, path-sensitive over the regions cut by the comparison constants), the width/byte order/constant images of every field kind on the encode side (K1-K3), a fresh zeroed 64-byte buffer with byte 0 = 0x17 per Marshal call (K8), no package-level or client state written at run time (G1, IM1), one write per driver call (A2d). The date and time encoders format the civil fields of the instant they are given and recognise 'no date' by the instant's own zero test, whatever location it carries (Z2, Z6). The digit-to-nibble map of bcd.Encode is decided too (B1). No field with an encoder is left out and the field loop goes on after an embedded struct (K15, K22); dates are civil days in every zone (Z1, Z3). Not decided: that bcd.Encode∘time.Format yields the right digits for every date (B1-B3 decide the digit map; digit positions and package time are trusted), nor what package net does with the bytes."
+		r.Explanation = "Decides, for all 32 request-issuing operations and all argument values at once, the structural facts the request bytes are a function of: the protocol layout of every request struct (L1-L5, L7 vs spec/wire.json), the function-code tables (L6), the wiring argument->offset incl. magic words, nil/partial maps and conditional clamps (A2-A4 vs spec/ops.json, path-sensitive over the regions cut by the comparison constants), the width/byte order/constant images of every field kind on the encode side (K1-K3), a fresh zeroed 64-byte buffer with byte 0 = 0x17 per Marshal call (K8), no package-level or client state written at run time (G1, IM1), one write per driver call (A2d). The date and time encoders format the civil fields of the instant they are given and recognise 'no date' by the instant's own zero test, whatever location it carries (Z2, Z6). The digit-to-nibble map of bcd.Encode is decided too (B1). No field with an encoder is left out and the field loop goes on after an embedded struct (K15, K22); dates are civil days in every zone (Z1, Z3). An HH:mm argument reaches its encoder as it was constructed: the constructor keeps its arguments, 24:00 included (HC1); the built-in and integer kinds write no constant in place of particular values (K23). Not decided: that bcd.Encode∘time.Format yields the right digits for every date (B1-B3 decide the digit map; digit positions and package time are trusted), nor what package net does with the bytes."
 		r.Assumptions = []string{"go/packages, go/types, go/ssa (x/tools v0.29.0) represent the program faithfully", "spec/wire.json, spec/ops.json, spec/kinds.json state the UT0311-L0x protocol and API contract correctly", "time.Format emits the fixed digit counts of its layout verbs for years 0..9999", "binary.ByteOrder.PutUintNN writes exactly NN/8 bytes in that order"}
 		c := NewCodec(r, p, true)
 		if c == nil {
@@ -58,10 +58,12 @@ func init() {
 		r.Only = nil
 		RuleK15(r, c) // a field with an encoder is never left out
 		RuleK22(r, c) // ... nor are the fields declared after an embedded struct
+		RuleK23(r, c) // ... and no constant is written in place of particular values
+		RuleHC1(r, p) // an HH:mm argument reaches its encoder as it was given (24:00 is a value)
 	}
 
 	checks["C02"] = func(r *Report, p *Program, tier string) {
-		r.Explanation = "Decides the reply side: 31 reply layouts and the event layout equal the protocol's (L6, L7, L7e), result wiring and the sentinel decision tables of all reply-bearing operations equal spec/ops.json on every path (A6: card 0 / 0xffffffff, echoed card or profile mismatch, event type 0xff, index 0, profile 0, status event present iff index != 0), GetStatus and the listener agree (A6s), read extents/byte order/boolean table of every kind (K1-K3), nested decode errors (K5), zero 'no value' images (K9), out-of-domain handling of BCD, calendar and HH:mm values (K10, K10a, K10b). No state is kept between decodes (G1, G2). Each message of a call is decoded into a value created for it (K20). Not decided: time.ParseInLocation's calendar validation and the positional BCD arithmetic (trusted / C12)."
+		r.Explanation = "Decides the reply side: 31 reply layouts and the event layout equal the protocol's (L6, L7, L7e), result wiring and the sentinel decision tables of all reply-bearing operations equal spec/ops.json on every path (A6: card 0 / 0xffffffff, echoed card or profile mismatch, event type 0xff, index 0, profile 0, status event present iff index != 0), GetStatus and the listener agree (A6s), read extents/byte order/boolean table of every kind (K1-K3), nested decode errors (K5), zero 'no value' images, none of which is an existing value (K9), no constant substituted for particular byte images of a built-in kind (K23), out-of-domain handling of BCD, calendar and HH:mm values (K10, K10a, K10b). No state is kept between decodes (G1, G2). Each message of a call is decoded into a value created for it (K20). Not decided: time.ParseInLocation's calendar validation and the positional BCD arithmetic (trusted / C12)."
 		r.Assumptions = []string{"spec/wire.json and spec/ops.json state the protocol correctly", "time.ParseInLocation rejects impossible civil dates and times", "go/ssa is faithful"}
 		c := NewCodec(r, p, true)
 		if c == nil {
@@ -75,6 +77,7 @@ func init() {
 		RuleK3(r, c)
 		RuleK5(r, c)
 		RuleK9(r, c)
+		RuleK23(r, c) // a built-in kind is never decoded to a constant in place of its bytes
 		RuleG1(r, p)  // what a reply decodes to is a function of that reply alone: no state is kept between decodes
 		RuleK20(r, c) // ... and each message of a call is decoded into a value created for it
 		RuleK10(r, p)
@@ -131,7 +134,7 @@ func init() {
 	}
 
 	checks["C05"] = func(r *Report, p *Program, tier string) {
-		r.Explanation = "Decides necessary structural conditions of invertibility: per kind, encoder and decoder agree on extent, byte order and constant images (K1-K3) and handle the same kind set (K7); per layout, fields are pairwise disjoint and inside the 64 bytes, so no two fields share a byte and decoders read only their own bytes (L3, L4); the zero 'no value' date/date-time image round-trips independently of the zone (K9); the dispatcher tables are exact and guarded (L6 both directions, F4). Field encoders are total (K21: an encoder that refuses a value makes the codec send zeros for it) and no message makes a dispatcher panic (P1/P2 sites of package messages). The two BCD digit maps are each other's inverse (B1, B2). The encoder of every non-nil field is called (K15). Not decided: value-level bijectivity of BCD∘time for every value, nor behaviour under each IANA zone (C13 covers the structural zone hazards)."
+		r.Explanation = "Decides necessary structural conditions of invertibility: per kind, encoder and decoder agree on extent, byte order and constant images (K1-K3) and handle the same kind set (K7); per layout, fields are pairwise disjoint and inside the 64 bytes, so no two fields share a byte and decoders read only their own bytes (L3, L4); the zero 'no value' date/date-time image round-trips independently of the zone and nothing else the decoder reads as 'no value' is an existing date or time (K9); the built-in kinds substitute no constant for particular values or byte images (K23); the dispatcher tables are exact and guarded (L6 both directions, F4). Field encoders are total (K21: an encoder that refuses a value makes the codec send zeros for it) and no message makes a dispatcher panic (P1/P2 sites of package messages). The two BCD digit maps are each other's inverse (B1, B2). The encoder of every non-nil field is called (K15). Not decided: value-level bijectivity of BCD∘time for every value, nor behaviour under each IANA zone (C13 covers the structural zone hazards)."
 		r.Assumptions = []string{"spec/wire.json and spec/kinds.json state the protocol correctly", "go/ssa is faithful"}
 		c := NewCodec(r, p, true)
 		if c == nil {
@@ -146,6 +149,7 @@ func init() {
 		RuleK9(r, c)
 		RuleK21(r, c) // a value the encoder refuses is sent as zeros: it shares its encoding with the zero value
 		RuleK15(r, c) // ... and so is a field whose encoder is not asked
+		RuleK23(r, c) // the built-in kinds never substitute a constant for particular values or byte images
 		RuleF4(r, p)
 		// the BCD kinds are inverse only if the two digit maps are (B1, B2)
 		r.Only = map[string]bool{"B1": true, "B2": true}
@@ -162,13 +166,14 @@ func init() {
 	}
 
 	checks["C06"] = func(r *Report, p *Program, tier string) {
-		r.Explanation = "Decides the routing decision table of the directed send helper and the destination value on each route (R1), the default broadcast address (R2), that discovery can reach only the broadcast-all transport and every other operation only broadcast-to/udp/tcp (R3, static call graph through the in-package helpers), one request per call and one write per driver call (A2, A2d, F1 single-send), the configured bind address as local address of every request socket (T6), and that the configuration is never written after construction (IM1). Not decided: kernel routing, or that no other host hears a broadcast."
+		r.Explanation = "Decides the routing decision table of the directed send helper and the destination value on each route (R1), the default broadcast address (R2), that discovery can reach only the broadcast-all transport and every other operation only broadcast-to/udp/tcp (R3, static call graph through the in-package helpers), one request per call and one write per driver call (A2, A2d, F1 single-send), the configured bind address and port as local address of every socket a path opens or tries to open (T6), stored by the constructor as it was given (CF1), and that the configuration is never written after construction (IM1). Not decided: kernel routing, or that no other host hears a broadcast."
 		r.Assumptions = []string{"go/ssa is faithful", "net.UDPAddrFromAddrPort / TCPAddrFromAddrPort convert exactly"}
 		RuleFilter(r, p, aspectSet{"F1": true, "R1": true})
 		RuleR2(r, p)
 		RuleR3(r, p)
 		RuleAPI(r, p, declareAPI(r, []string{"A0", "A2", "IM1"}, map[string]int{"A2": 32, "A0": 0, "IM1": 32}), nil)
 		RuleTransport(r, p, aspectSet{"A2d": true, "T6": true})
+		RuleCF1(r, p) // ... which is the bind address the constructor was given
 		RuleImmutable(r, p)
 	}
 
@@ -295,15 +300,21 @@ func init() {
 	}
 
 	checks["C13"] = func(r *Report, p *Program, tier string) {
-		r.Explanation = "Decides zone-consistency of every civil construction and parse in the types and uhppote packages (Z1: process-local zone, or a UTC value used only for its civil fields), that encoders format the stored instant itself (Z2), that the status recombination parses with exactly the layouts it formatted with, identically in GetStatus and the listener (Z4), and the local-midnight hazard (Z3): by time's documented gap behaviour a date-only value built as local midnight lands on the previous day wherever a DST change removes 00:00, so 'no local-midnight construction without re-checking the civil day' is a necessary condition of the property. Not decided: anything per zone or per date; no IANA data is consulted."
+		r.Explanation = "Decides zone-consistency of every civil construction and parse in the types and uhppote packages (Z1: process-local zone, or a UTC value used only for its civil fields), that a BCD date/time decoder parses all its digits with its encoder's layout in one step (K10c), that encoders format the stored instant itself (Z2), that the status recombination parses with exactly the layouts it formatted with, identically in GetStatus and the listener (Z4), and the local-midnight hazard (Z3): by time's documented gap behaviour a date-only value built as local midnight lands on the previous day wherever a DST change removes 00:00, so 'no local-midnight construction without re-checking the civil day' is a necessary condition of the property. Not decided: anything per zone or per date; no IANA data is consulted."
 		r.Assumptions = []string{"time.Date/ParseInLocation resolve a non-existent local time to an adjacent existing instant (documented behaviour)", "go/ssa is faithful"}
 		c := NewCodec(r, p, false)
 		RuleZone(r, p, c)
 		RuleInstants(r, p)
+		// a date-time read from a controller is the instant package time builds, in the local zone, from ALL its
+		// digits at once (K10c): a date made first and the time of day added to it as a duration is an hour off
+		// on the days the zone changes its offset
+		if c != nil {
+			RuleK10c(r, c)
+		}
 	}
 
 	checks["C14"] = func(r *Report, p *Program, tier string) {
-		r.Explanation = "Decides the structural side of the text/JSON round trips: every hand-written JSON encoder has a decoder (J1); writer layouts/formats are accepted by the reader (J2: date, date-time incl. the zone-abbreviation fallback, HH:mm format vs pattern, PIN width 999999 vs {0,6}); numeric task-type bounds agree with the 13-entry table in both parsers (J3); control-state and weekday texts map back to the value that writes them (J4); decoders that store into a map behind their receiver establish it non-nil first (J5); HH:mm parsers enforce 00:00..24:00 with minutes <= 59 (K10); the four address types delegate to their role parser (AD0). JSON dates are civil days: parsed outside the local zone only for their civil fields and never left at a local midnight the zone may lack (Z1, Z3). No reference to a package-level table becomes part of a decoded value (G2). Not decided: value-level equality decode(encode(v)) for every value, nor encoding/json's and time's parsing of arbitrary text (zone abbreviations etc.)."
+		r.Explanation = "Decides the structural side of the text/JSON round trips: every hand-written JSON encoder has a decoder (J1); writer layouts/formats are accepted by the reader (J2: date, date-time incl. the zone-abbreviation fallback, HH:mm format vs pattern, PIN width 999999 vs {0,6}); whatever JSON form the PIN reader accepts, what it stores lies in 0..999999 (J10); numeric task-type bounds agree with the 13-entry table in both parsers (J3); control-state and weekday texts map back to the value that writes them, and the empty weekday set (written as \"\") reads back (J4); decoders that store into a map behind their receiver establish it non-nil first (J5); HH:mm parsers enforce 00:00..24:00 with minutes <= 59 and read only digits (K10); the four address types delegate to their role parser and store exactly what it returned (AD0). JSON dates are civil days: parsed outside the local zone only for their civil fields and never left at a local midnight the zone may lack (Z1, Z3). No reference to a package-level table becomes part of a decoded value (G2). Not decided: value-level equality decode(encode(v)) for every value, nor encoding/json's and time's parsing of arbitrary text (zone abbreviations etc.)."
 		r.Assumptions = []string{"encoding/json and package time parse as documented", "go/ssa is faithful"}
 		RuleJSON(r, p)
 		RuleJSONStructs(r, p)
@@ -323,7 +334,7 @@ func init() {
 	}
 
 	checks["C15"] = func(r *Report, p *Program, tier string) {
-		r.Explanation = "Decides, per role, the port rule as a decision table over the regions of the parsed port (AD1: accepted iff not forbidden, result exactly the parsed address:port; port-less text gets the role default or is rejected when the port is mandatory), that the port String() omits is the parser's default and not a forbidden one (AD2), that Set and UnmarshalJSON go through the role parser (AD0), and (AD3) that the two pre-filter patterns are the unanchored dotted-quad[:port] patterns, checked on the constants' syntax trees. netip parsing is trusted for the dotted-quad/port grammar itself. Not decided: acceptance of strings with text around the dotted quad (left open by the property)."
+		r.Explanation = "Decides, per role, the port rule as a decision table over the regions of the parsed port (AD1: accepted iff not forbidden, result exactly the parsed address:port; port-less text gets the role default or is rejected when the port is mandatory), that the port String() omits is the parser's default and not a forbidden one (AD2), that Set and UnmarshalJSON go through the role parser and, when they report success, have stored exactly what it returned (AD0), and (AD3) that the two pre-filter patterns are the unanchored dotted-quad[:port] patterns, checked on the constants' syntax trees. netip parsing is trusted for the dotted-quad/port grammar itself. Not decided: acceptance of strings with text around the dotted quad (left open by the property)."
 		r.Assumptions = []string{"spec/roles.json states the documented port rules", "netip.ParseAddrPort/ParseAddr accept exactly a.b.c.d[:port] in plain decimal", "go/ssa is faithful"}
 		RuleAddr(r, p)
 		RuleAddrPatterns(r, p)
@@ -368,7 +379,7 @@ func init() {
 	}
 
 	checks["C18"] = func(r *Report, p *Program, tier string) {
-		r.Explanation = "Decides, per field kind and per tag form and independently of the shipped messages: buffer accesses stay inside the field's width on encode and decode (K1), no view of the input escapes (K4), nested decode errors are enforced through embedding (K5), value tags are parsed with one base that admits the hexadecimal form the tag grammar allows (K6), encoder and decoder handle the same kind set incl. value/pointer interface dispatch (K7), byte order (K2), boolean table (K3), nil-tolerant decoders for pointer kinds (K11), fresh zeroed buffer (K8), a value: tag is emitted and enforced for every value of its constant (K19), and every index, slice, assertion and explicit panic of the codec package is discharged (P1/P3/P4 restricted to that package). The BCD digit maps are inverse (B1, B2); the field loop goes on after a nested walk (K22); a value created for a message reaches the field walk unwritten (K20). Not decided: round-trip equality for generated layouts (value level)."
+		r.Explanation = "Decides, per field kind and per tag form and independently of the shipped messages: buffer accesses stay inside the field's width on encode and decode (K1), no view of the input escapes (K4), nested decode errors are enforced through embedding (K5), value tags are parsed with one base that admits the hexadecimal form the tag grammar allows (K6), encoder and decoder handle the same kind set incl. value/pointer interface dispatch (K7), byte order (K2), boolean table (K3), nil-tolerant decoders for pointer kinds (K11), fresh zeroed buffer (K8), a value: tag is emitted and enforced for every value of its constant (K19), and every index, slice, assertion and explicit panic of the codec package is discharged (P1/P3/P4 restricted to that package). The BCD digit maps are inverse (B1, B2); the built-in kinds substitute no constant for particular values or images (K23); the field loop goes on after a nested walk (K22); a value created for a message reaches the field walk unwritten (K20). Not decided: round-trip equality for generated layouts (value level)."
 		r.Assumptions = []string{"spec/kinds.json states the protocol encodings", "go/ssa is faithful"}
 		c := NewCodec(r, p, true)
 		if c == nil {
@@ -385,6 +396,7 @@ func init() {
 		RuleK22(r, c)
 		RuleK9(r, c)
 		RuleK21(r, c)
+		RuleK23(r, c)
 		// the BCD kinds decode to what was encoded only if the two digit maps are inverse (B1, B2)
 		r.Only = map[string]bool{"B1": true, "B2": true}
 		RuleBCD(r, p)
